@@ -46,7 +46,8 @@ CHECKS["C08"] = dict(
          "ciphertexts rejected; recorded method always concrete; SecureField stored-value decision table (every malformed shape "
          "rejected) and field-level round trip, using proved base64 decode(encode b)=b. Correspondence: the model instantiated "
          "with an executable FIPS-197 AES-256 decrypts every ciphertext the library produced and re-encrypts with the IV it drew "
-         "(byte equality); malformed-value grammar through SecureField.to_python; lenient base64 decoding on random text.",
+         "(byte equality); malformed-value grammar through SecureField.to_python; lenient base64 decoding on random text."
+         " Continuation (Props/C08b.lean): the executable AES-256 of the model is proved to be a lawful block cipher for every key (S-box by exhaustive table check, MixColumns inverse from XOR-linearity of xtime), so the CBC round trip holds for it with no hypothesis on the block function.",
     note="BlockCipher.Lawful for the real AES and Utf8.Lawful are hypotheses (not axioms); the Lean AES is validated by NIST vectors at "
          "build time and differentially on every case. IV randomness and 'another key never yields the plaintext' are not provable; the "
          "latter is checked per case. base64 is a hand model of binascii validated by the stream.",
@@ -81,7 +82,8 @@ CHECKS["C05"] = dict(
          "structural recursion; string transforms, int text, IPv4 address/network parse-print round trips, base64/hex inverses all "
          "proved); the guard is shown necessary by a kernel-evaluated counterexample; byte, digest and identity codecs invert. "
          "Correspondence: random declarations x value pools through validate / validate-again / to_basic / to_python on the real "
-         "fields and the model (about 7000 comparisons per quick run), with direct idempotence and codec oracles on the implementation.",
+         "fields and the model (about 7000 comparisons per quick run), with direct idempotence and codec oracles on the implementation."
+         " Continuation (Props/C05b.lean): validation is sound with respect to the declared constraints for every kind and option, nested typed lists and dicts included (type shape, numeric bounds with exact int/float comparison, lengths, choices, regex, case- and strip-normal form, prefix bounds and canonical network text, existence modes, duplicate-free dict keys).",
     note="Model hand-written; tie = differential correspondence. float(text), os.path.*, urlparse are environment parameters fed from "
          "CPython per case; str.lower/upper/strip, int(text), the re fragment and ipaddress are hand models (model alphabet; outside it "
          "cases are counted as unmodelled). Exactness against an independent declarative Accepts predicate is not yet stated as a "
@@ -99,7 +101,8 @@ CHECKS["C01"] = dict(
          "regenerated from the source on every run: ListProxy/DictProxy override every inserting entry point of list/dict. "
          "Correspondence: random schemas x histories (assignment by dotted path and chained attributes of values, maps, configuration "
          "objects; load_tree; validate; reset; to_tree) with full-state comparison after every step, plus re-validation of every "
-         "readable value by its own field and a mutation stream over every list/dict mutator.",
+         "readable value by its own field and a mutation stream over every list/dict mutator."
+         " Continuation (Props/C01b.lean): every reachable state satisfies the constraints its fields *declare* (Sat, written from the declaration, not through the validator) — soundness of validation composed with the invariant over histories.",
     note=CFG_NOTE + " Values of AnyField / untyped containers are unconstrained. The table of inserting entry points of list/dict is trusted.",
     technique="Lean 4 proof (case analysis and induction over the operation model; decide over generated method sets) + model/implementation correspondence",
     design="6 C01")
@@ -181,7 +184,8 @@ CHECKS["C17"] = dict(
          "popitem, delete, clear) equals the built-in dict's (refinement, by cases on the operation); a typed list only ever holds "
          "validation results after any operation, acceptable or not, including a half-finished extend, along whole histories "
          "(induction); rejected single-element insertions leave list and dict unchanged (C06). Correspondence three-way: the real proxy, "
-         "a plain built-in replaying the history with field-validated arguments, and the model; result types of copy and + checked.",
+         "a plain built-in replaying the history with field-validated arguments, and the model; result types of copy and + checked."
+         " Continuation (Props/C17b.lean): the typed dict holds only validation results after every operation, accepted or rejected, along whole histories (dict counterpart of list_inv), keys stay duplicate-free.",
     note="Cinco/Proxy/PyList.lean and the association-list dict are hand-written specifications of CPython's list/dict, validated "
          "three-way. sort, slice deletion and the non-mutating queries are inherited unchanged and checked by the stream only. "
          "proxy * k, plain + proxy and proxy | mapping return plain built-ins by Python's own dispatch (observation).",
@@ -228,7 +232,8 @@ CHECKS["C03"] = dict(
          "key file per tree toTreeK is the plain to_tree in that key's world, so reload under the same key file is the C02 round trip. "
          "Correspondence: histories of key-file assignments / secret assignments / replacements / loads / keyed serialisations on the real "
          "library (key file identified per ciphertext by trial decryption, open() log, directory listing) vs the model; direct oracle of the "
-         "nearest-named-ancestor rule, absence of plaintext in five document formats, reload in-process and in a new interpreter session.",
+         "nearest-named-ancestor rule, absence of plaintext in five document formats, reload in-process and in a new interpreter session."
+         " Continuation (Props/C03b.lean): a built configuration carries the key file it was built with; no operation changes the owner's key file; a successful load rebuilds every mentioned sub-configuration with the schema's key file (an assigned name is lost: F19 in general; a declared one comes back; unmentioned ones are kept); hence built and loaded configurations of a schema without declared keys use one key file at every node, which discharges the uniformity premise of the reload theorem.",
     note=CFG_NOTE + " Reload is proved for trees served by one key file (reload_same_key_partial); a key file assigned to a plain sub-configuration "
          "does not survive replacement of that object (finding F19, witness theorem f19_sub_key_lost). 'Plaintext absent from the output bytes' "
          "is explored per sample: a ciphertext could contain the plaintext by coincidence, no theorem excludes that. KeyFile file access is "
